@@ -30,6 +30,13 @@ def instances(tier):
         seen.add(name)
         L.append(Inst(name, "C03/confine.c", d, unwind=20, unwindset=API_UNWINDSET, objbits=12, timeout=900,
                       desc={"what": "pixman_image_composite32 changes no bit outside request /\\ bounds /\\ clip (sub-byte neighbours, padding, guard words); contents symbolic, geometry concrete", "request": g, "clip": c}))
+    same = [("a8", (0, 0, 5, 2), (0, 0)), ("r8g8b8", (0, 0, 5, 2), (0, 0)), ("r5g6b5", (0, 0, 5, 2), (0, 0))]
+    if tier == "thorough":
+        same += [("x1r5g5b5", (0, 0, 5, 2), (0, 0)), ("a8r8g8b8", (0, 0, 5, 2), (0, 0)), ("a8", (1, 0, 4, 2), (1, 0)), ("r8g8b8", (0, 1, 5, 1), (0, 0)), ("a1", (0, 0, 5, 2), (0, 0))]
+    for fmt, g, so in same:
+        d = {"FMT": "PIXMAN_" + fmt, "OP": 1, "DX": g[0], "DY": g[1], "RW": g[2], "RH": g[3], "SRCX": so[0], "SRCY": so[1], "SAMEFMT": None, "VP_REL": None}
+        L.append(Inst("confine-copy-%s-%s" % (fmt, "_".join(map(str, g))), "C03/confine.c", d, unwind=20, unwindset=API_UNWINDSET, objbits=12, timeout=900,
+                      desc={"what": "SRC copy between two images of the same format, size and stride (plain-copy fast paths, whole-width request): destination row padding and guard words unchanged; contents and both paddings symbolic", "request": g}))
     if tier == "thorough":
         for n, d in {"destclip+srcclip": cfg(d=1, s=1)}.items():   # other pairs not validated in the available time
             L.append(Inst("region-" + n, "C03/region.c", d, link=LINK, unwind=4, timeout=3000, extra_cbmc=("--paths", "lifo"),
